@@ -107,7 +107,10 @@ def op_cases(draw, kind):
             "onehot": None,
             # (after missed seed C05-6) "make_operator": the operator with the boundary conditions built in,
             # as compiled right-hand sides use it - its ghost cells are set by the numba backend's own setter
-            "route": draw(st.sampled_from(["field", "make_operator"]))}
+            "route": draw(st.sampled_from(["field", "make_operator"])),
+            # an unrelated configuration switch turned off (after missed seed C05-7: the conservative default of
+            # the spherical divergence was read from `operators.tensor_symmetry_check`)
+            "no_symmetry_check": draw(st.sampled_from([False, False, True]))}
     if onehot:
         ncomp = dim_of(gspec) ** rank
         n = int(np.prod(gspec["shape"])) * ncomp
@@ -122,6 +125,19 @@ def op_cases(draw, kind):
 
 
 def check_operator(case):
+    if not case.get("no_symmetry_check"):
+        return _check_operator(case)
+    old = pde.config["operators.tensor_symmetry_check"]
+    pde.config["operators.tensor_symmetry_check"] = False
+    try:
+        rec = _check_operator(case)
+        rec["labels"].append("config:tensor_symmetry_check=False")
+        return rec
+    finally:
+        pde.config["operators.tensor_symmetry_check"] = old
+
+
+def _check_operator(case):
     gspec, kind, dtype = case["grid"], case["kind"], case["dtype"]
     grid = build_grid(gspec)
     rank = 0 if kind == "laplace" else 1
